@@ -275,9 +275,11 @@ def run(ctx):
     counting.rules(ctx)
     counting.chr1(ctx, lib)
     # ESC-3 (shared with C01): nested repetitions are escaped at every level the printer prints
-    from .C01 import esc3
+    from .C01 import esc3, esc4
     ctx.rule("ESC-3", "if the grapheme printer is recursive over nested repetitions, escaping descends as deep, on every path")
+    ctx.rule("ESC-4", "the printer prints a grapheme's own text only where it was escaped: under the same emptiness test of the nested repetitions that the escaping dispatch uses")
     esc3(ctx, lib)
+    esc4(ctx, lib)
     from . import memo
     memo.rules(ctx)
     memo.check(ctx, lib)
